@@ -2,6 +2,7 @@
 from ..rt import check
 
 STREAMS = ["startonce"]
+REGENERATE_SRC = True
 RULE = ("0..6 payloads per flavour with random positional / keyword arguments, queued before start, adopted after "
         "start from an outside thread or from inside a payload of each flavour, services created before and after "
         "start; counted after quiescence plus several polling cycles of the service loop (accept_delay 20 ms); a quarter "
